@@ -11,6 +11,7 @@ import (
 	"github.com/libsv/go-bt/v2"
 	"github.com/libsv/go-bt/v2/bscript"
 	"github.com/libsv/go-bt/v2/bscript/interpreter"
+	"github.com/libsv/go-bt/v2/bscript/interpreter/debug"
 	"github.com/libsv/go-bt/v2/bscript/interpreter/scriptflag"
 )
 
@@ -180,15 +181,63 @@ func toBytes(a []int) []byte {
 	return b
 }
 
+// fanout builds a debug.NewDebugger whose every attach point feeds r, twice (two handlers per point:
+// both must fire, in attachment order).
+func fanout(r *recorder, second *[]string) interpreter.Debugger {
+	d := debug.NewDebugger()
+	st := func(name string) (debug.ThreadStateFunc, debug.ThreadStateFunc) {
+		return func(s *interpreter.State) { r.see(name, s) }, func(s *interpreter.State) { *second = append(*second, name) }
+	}
+	a, b := st("BeforeExecute")
+	d.AttachBeforeExecute(a)
+	d.AttachBeforeExecute(b)
+	a, b = st("AfterExecute")
+	d.AttachAfterExecute(a)
+	d.AttachAfterExecute(b)
+	a, b = st("BeforeStep")
+	d.AttachBeforeStep(a)
+	d.AttachBeforeStep(b)
+	d.AttachAfterStep(func(s *interpreter.State) { r.AfterStep(s) })
+	d.AttachAfterStep(func(s *interpreter.State) { *second = append(*second, "AfterStep") })
+	a, b = st("BeforeExecuteOpcode")
+	d.AttachBeforeExecuteOpcode(a)
+	d.AttachBeforeExecuteOpcode(b)
+	a, b = st("AfterExecuteOpcode")
+	d.AttachAfterExecuteOpcode(a)
+	d.AttachAfterExecuteOpcode(b)
+	a, b = st("BeforeScriptChange")
+	d.AttachBeforeScriptChange(a)
+	d.AttachBeforeScriptChange(b)
+	a, b = st("AfterScriptChange")
+	d.AttachAfterScriptChange(a)
+	d.AttachAfterScriptChange(b)
+	a, b = st("AfterSuccess")
+	d.AttachAfterSuccess(a)
+	d.AttachAfterSuccess(b)
+	d.AttachAfterError(func(s *interpreter.State, _ error) { r.see("AfterError", s) })
+	d.AttachAfterError(func(s *interpreter.State, _ error) { *second = append(*second, "AfterError") })
+	d.AttachBeforeStackPush(func(s *interpreter.State, _ []byte) { r.see("BeforeStackPush", s) })
+	d.AttachBeforeStackPush(func(s *interpreter.State, _ []byte) { *second = append(*second, "BeforeStackPush") })
+	d.AttachAfterStackPush(func(s *interpreter.State, _ []byte) { r.see("AfterStackPush", s) })
+	d.AttachAfterStackPush(func(s *interpreter.State, _ []byte) { *second = append(*second, "AfterStackPush") })
+	a, b = st("BeforeStackPop")
+	d.AttachBeforeStackPop(a)
+	d.AttachBeforeStackPop(b)
+	d.AttachAfterStackPop(func(s *interpreter.State, _ []byte) { r.see("AfterStackPop", s) })
+	d.AttachAfterStackPop(func(s *interpreter.State, _ []byte) { *second = append(*second, "AfterStackPop") })
+	return d
+}
+
 type vmResult struct {
-	outcome string // ok | err | panic | nonterm
+	second  []string // callbacks seen by the second handler of each fan-out attach point
+	outcome string   // ok | err | panic | nonterm
 	errText string
 	rec     *recorder
 	same    bool
 }
 
 // runVM executes one case. dbg: "none" | "rec" | "scribble".
-func runVM(c vmCase, dbg string) vmResult {
+func runVM(c vmCase, dbg string) (res vmResult) {
 	unlock, lock := toBytes(c.Unlock), toBytes(c.Lock)
 	us, ls := bscript.NewFromBytes(append([]byte{}, unlock...)), bscript.NewFromBytes(append([]byte{}, lock...))
 	opts := []interpreter.ExecutionOptionFunc{interpreter.WithScripts(ls, us), interpreter.WithFlags(scriptflag.Flag(c.Flags))}
@@ -220,8 +269,12 @@ func runVM(c vmCase, dbg string) vmResult {
 		}
 		opts = append(opts, interpreter.WithTx(tx, idx, prev))
 	}
-	res := vmResult{rec: &recorder{scribble: dbg == "scribble", limit: len(unlock) + len(lock) + 600, calls: []string{}}}
-	if dbg != "none" {
+	res = vmResult{rec: &recorder{scribble: dbg == "scribble", limit: len(unlock) + len(lock) + 600, calls: []string{}}}
+	var second []string
+	if dbg == "fanout" {
+		opts = append(opts, interpreter.WithDebugger(fanout(res.rec, &second)))
+		defer func() { res.second = second }()
+	} else if dbg != "none" {
 		opts = append(opts, interpreter.WithDebugger(res.rec))
 	}
 	var err error
@@ -314,6 +367,10 @@ func vmCmd(args []string) error {
 			}
 			end["scribbleSameSnapshots"] = sameSnaps
 			end["scribbleSameCalls"] = fmt.Sprint(s.rec.calls) == fmt.Sprint(r.rec.calls)
+			// debug.NewDebugger fan-out: every attach point, two handlers each
+			fo := runVM(c, "fanout")
+			end["fanout"], end["fanoutErr"] = fo.outcome, fo.errText
+			end["fanoutSameCalls"] = fmt.Sprint(fo.rec.calls) == fmt.Sprint(r.rec.calls) && fmt.Sprint(fo.second) == fmt.Sprint(r.rec.calls)
 		}
 		w(end)
 	}
